@@ -19,6 +19,7 @@ RULE = ('cases = every (epoch, n_epochs) pair with n_epochs 1..50 and epoch 0..n
         'one not above (mixed), or an annealing position strictly inside the schedule; '
         'distinct = (epoch, n_epochs, cost placement, strengths mode).')
 RULE += ('  Round 3: derived strengths with metrics that start below their target and exceed it in a later call (value stays finite and non-negative).')
+RULE += ('  Round 4b: a violated metric with a positive strength must receive a gradient (first call included).')
 ASSUMPTIONS = [
     '"positive final strengths" is read as positive and finite (a cost exactly at its target gives '
     'a derived strength of inf, outside the premise)',
